@@ -146,6 +146,13 @@ Theorem Wmsgpack_skip_lit : forall cap n b, (len b <= cap)%N -> rd_skip n b = rd
 Proof. exact rd_skip_lit_eq. Qed.
 Print Assumptions Wmsgpack_skip_lit.
 
+(* a msgpack length can never be the containerLenNil sentinel (64-bit int): F14-3 does not reach
+   msgpack on this platform *)
+Theorem Wmsgpack_len_not_nil : forall fm bd w b n r,
+  rd_len fm bd w b = Ok (n, r) -> Z.of_N n <> containerLenNil.
+Proof. exact rd_len_not_nil. Qed.
+Print Assumptions Wmsgpack_len_not_nil.
+
 (* non-vacuity: a nested item with every kind of node meets the premises *)
 Example Wmsgpack_nonvacuous :
   let O := mkeopts true false true false in
